@@ -256,6 +256,61 @@ where
     }
 }
 
+/// multi-site edit: the unique-query count lowered to k and every opened table cut to k rows (the
+/// opening proofs still cover the original positions), so the batch verifier gets fewer leaves
+/// than indexes
+fn fewer_rows_case<B, H>(rep: &mut Report, rng: &mut Rng, h: &Honest)
+where
+    B: BaseFut,
+    H: ElementHasher<BaseField = B> + Sync + Send,
+    QuadExtension<B>: FieldElement<BaseField = B>,
+{
+    use crate::replay::{open_queries, rebuild_queries};
+    use winter_air::Air;
+    let nq = h.proof.num_unique_queries as usize;
+    if nq < 2 || h.inst.opts.ext > 1 {
+        return;
+    }
+    let k = 1 + rng.usize(nq - 1);
+    let air = genair::GenAir::<B>::new(h.proof.trace_info().clone(), genair::GenPub::new(h.spec.clone()), h.proof.options().clone());
+    let lde = air.lde_domain_size();
+    let mw = air.trace_info().main_trace_width();
+    let aw = air.trace_info().aux_segment_width();
+    let cw = air.context().num_constraint_composition_columns();
+    let built = guard(|| -> Option<Proof> {
+        let mut p = h.proof.clone();
+        p.num_unique_queries = k as u8;
+        let (mp, rows) = open_queries::<B, H>(&h.proof.trace_queries[0], lde, nq, mw).ok()?;
+        p.trace_queries[0] = rebuild_queries::<B, H>(mp, rows[..k].to_vec());
+        macro_rules! ext_tables {
+            ($e:ty) => {{
+                if aw > 0 {
+                    let (mp, rows) = open_queries::<$e, H>(&h.proof.trace_queries[1], lde, nq, aw).ok()?;
+                    p.trace_queries[1] = rebuild_queries::<$e, H>(mp, rows[..k].to_vec());
+                }
+                let (mp, rows) = open_queries::<$e, H>(&h.proof.constraint_queries, lde, nq, cw).ok()?;
+                p.constraint_queries = rebuild_queries::<$e, H>(mp, rows[..k].to_vec());
+            }};
+        }
+        if h.inst.opts.ext == 0 { ext_tables!(B) } else { ext_tables!(QuadExtension<B>) }
+        Some(p)
+    });
+    let p = match built {
+        Ok(Some(p)) => p,
+        _ => return,
+    };
+    rep.case(format!("fewer/{k}/{nq}/{}", hex(&h.bytes[..24])).as_bytes(), true);
+    rep.count("mutation:fewer-opened-rows-than-positions");
+    for (mname, acc) in [("OptionSet", AcceptableOptions::OptionSet(vec![h.options.clone()])), ("MinConjecturedSecurity", AcceptableOptions::MinConjecturedSecurity(0))] {
+        rep.evals(1);
+        match verify::<B, H>(p.clone(), &h.spec, &acc) {
+            VerifyOutcome::Accept => rep.violation(&format!("accepted|fewer-opened-rows-than-positions|{mname}"), json!({"k": k, "unique_queries": nq})),
+            VerifyOutcome::Reject(e) => rep.count(&format!("verify:reject:{}", e.split(['(', '{']).next().unwrap_or("?").trim())),
+            VerifyOutcome::Panic(sig) => rep.violation(&format!("{sig}|verify|{mname}"), json!({"mutation": "fewer-opened-rows-than-positions", "k": k, "unique_queries": nq})),
+        }
+    }
+}
+
 /// component decoders and parsers on hostile bytes
 fn component_case<E, H>(rep: &mut Report, rng: &mut Rng, h: &Honest)
 where
@@ -383,6 +438,8 @@ pub fn run(args: &Args) {
                     if rng.bool() { component_case::<QuadExtension<F64>, Blake3_256<F64>>(&mut rep, &mut rng, h) } else { component_case::<CubeExtension<F64>, Blake3_256<F64>>(&mut rep, &mut rng, h) }
                 } else if case % 8 == 0 {
                     ood_patched_case::<F64, Blake3_256<F64>>(&mut rep, &mut rng, h);
+                } else if case % 16 == 4 {
+                    fewer_rows_case::<F64, Blake3_256<F64>>(&mut rep, &mut rng, h);
                 } else {
                     proof_case::<F64, Blake3_256<F64>>(&mut rep, &mut rng, h, Some(o));
                 }
@@ -390,7 +447,7 @@ pub fn run(args: &Args) {
             1 => {
                 let h = &p128[rng.usize(p128.len())];
                 let o = &p128[rng.usize(p128.len())];
-                if component { component_case::<F128, Sha3_256<F128>>(&mut rep, &mut rng, h) } else if case % 8 == 1 { ood_patched_case::<F128, Sha3_256<F128>>(&mut rep, &mut rng, h) } else { proof_case::<F128, Sha3_256<F128>>(&mut rep, &mut rng, h, Some(o)) }
+                if component { component_case::<F128, Sha3_256<F128>>(&mut rep, &mut rng, h) } else if case % 8 == 1 { ood_patched_case::<F128, Sha3_256<F128>>(&mut rep, &mut rng, h) } else if case % 16 == 5 { fewer_rows_case::<F128, Sha3_256<F128>>(&mut rep, &mut rng, h) } else { proof_case::<F128, Sha3_256<F128>>(&mut rep, &mut rng, h, Some(o)) }
             },
             2 => {
                 let h = &p62[rng.usize(p62.len())];
